@@ -84,8 +84,9 @@ var stringStatsTpl = `{{define "stringStats"}}
 const nilString = "__#NIL#__"
 
 type stringStats struct {
-	min string
-	max string
+	min  string
+	max  string
+	seen bool
 }
 
 func newStringStats() *stringStats {
@@ -96,19 +97,17 @@ func newStringStats() *stringStats {
 }
 
 func (s *stringStats) add(val string) {
-	if s.min == nilString {
-		s.min = val
-	} else {
-		if val < s.min {
-			s.min = val
-		}
+	if !s.seen {
+		// the first value of the page; any string, including one equal to
+		// nilString, is a legal value
+		s.min, s.max, s.seen = val, val, true
+		return
 	}
-	if s.max == nilString {
+	if val < s.min {
+		s.min = val
+	}
+	if val > s.max {
 		s.max = val
-	} else {
-		if val > s.max {
-			s.max = val
-		}
 	}
 }
 
@@ -121,14 +120,14 @@ func (s *stringStats) DistinctCount() *int64 {
 }
 
 func (s *stringStats) Min() []byte {
-	if s.min == nilString {
+	if !s.seen {
 		return nil
 	}
 	return []byte(s.min)
 }
 
 func (s *stringStats) Max() []byte {
-	if s.max == nilString {
+	if !s.seen {
 		return nil
 	}
 	return []byte(s.max)
